@@ -67,7 +67,7 @@ def case_stmts(fn, value, param_name=None):
     for b, j, st in fn.cfg.stmts():
         gf = guard_facts(fn, b, st)
         if any(f[0] == 'case' and value in f[2] for f in gf):
-            yield b, j, st, gf
+            yield b, j, st, expand_locals(fn, gf)       # `const bool pedalDown = (value >= 64); if(!pedalDown)` reads as `value < 64`
 
 
 def analyse(facts, tier):
@@ -123,7 +123,7 @@ def analyse(facts, tier):
         for x in walk(st['s']):
             ap = assign_parts(x)
             if ap and strip(ap[0]).get('k') == 'MemberExpr' and short(strip(ap[0])['n']) == 'sustain':
-                r = strip(ap[1])
+                r = strip(subst(strip(ap[1]), single_defs(rc.d)))
                 if r.get('k') == 'BinaryOperator' and ((r['op'] == '>=' and const_of(r['r']) == 64) or (r['op'] == '>' and const_of(r['r']) == 63)) and strip(r['l']).get('id') == val_param:
                     thr = True
                     thr_loc = st['loc']
@@ -187,10 +187,10 @@ def analyse(facts, tier):
             for x in walk(st['s']):
                 ap = assign_parts(x)
                 if ap and strip(ap[0]).get('k') == 'MemberExpr' and short(strip(ap[0])['n']) == 'sustain' and 'MIDIchannel' in strip(ap[0])['n']:
-                    clears.append((b, j, st, 'store sustain'))
+                    clears.append((b, j, st, 'store sustain', strip(ap[1])))
                 if short(callee_name(x)) in ('resetAllControllers', 'resetAllControllers121') and 'MIDIchannel' in callee_name(x):
-                    clears.append((b, j, st, 'call ' + short(callee_name(x))))
-        for b, j, st, what in clears:
+                    clears.append((b, j, st, 'call ' + short(callee_name(x)), None))
+        for b, j, st, what, stored in clears:
             n3 += 1
             rel = []
             for b2, j2, st2 in fn.cfg.stmts():
@@ -199,7 +199,14 @@ def analyse(facts, tier):
                         gf = guard_facts(fn, b2, st2, loops=False)
                         extra = [f for f in gf if fact_str(f) not in {fact_str(g) for g in guard_facts(fn, b, st, loops=False)}]
                         # allowed extra guard: the pedal is up (the stored value itself)
-                        if all((f[0] == 'truth' and mentions(f[1], member_named('sustain'))) for f in extra):
+                        def pedal_state(f):
+                            if f[0] != 'truth':
+                                return False
+                            if mentions(f[1], member_named('sustain')):
+                                return True
+                            # the local whose value is the one stored into the pedal flag
+                            return stored is not None and stored.get('k') == 'DeclRefExpr' and strip(f[1]).get('k') == 'DeclRefExpr' and strip(f[1]).get('id') == stored.get('id')
+                        if all(pedal_state(f) for f in extra):
                             rel.append(x)
             ok = bool(rel)
             obls.append(Obl('C05.R3', fn.name, what, st['loc'], 'discharged' if ok else 'finding',
